@@ -4,18 +4,23 @@ import (
 	"bytes"
 	"context"
 	"fmt"
+	"reflect"
 	"sort"
 	"strings"
 	"sync"
 	"time"
 
 	"github.com/pingcap/kvproto/pkg/kvrpcpb"
+	"github.com/pingcap/kvproto/pkg/metapb"
 	"github.com/tikv/client-go/v2/internal/locate"
 	"github.com/tikv/client-go/v2/internal/mockstore/mocktikv"
 	"github.com/tikv/client-go/v2/rawkv"
 	"github.com/tikv/client-go/v2/tikv"
 	"github.com/tikv/client-go/v2/tikvrpc"
 	"github.com/tikv/client-go/v2/verifsim/simkit"
+	pd "github.com/tikv/pd/client"
+	"github.com/tikv/pd/client/opt"
+	"github.com/tikv/pd/client/pkg/caller"
 )
 
 // The mock computes checksums over this column family only (rpc.go, handleKvRawChecksum),
@@ -26,10 +31,11 @@ const cfName = "CF_DEFAULT"
 // topology helper for raw-mode clusters (region borders are unencoded keys)
 
 type rawTopo struct {
-	c   *mocktikv.Cluster
-	sim *simkit.Sim
-	h   *simkit.Hasher
-	n   int
+	c       *mocktikv.Cluster
+	sim     *simkit.Sim
+	h       *simkit.Hasher
+	n       int
+	changes []uint64 // stamps of the changes
 }
 
 func (t *rawTopo) regionOf(key []byte) (start, end []byte, id uint64, ok bool) {
@@ -62,6 +68,7 @@ func (t *rawTopo) splitExact(key []byte) bool {
 	}
 	t.c.VerifSplitRaw(region.Id, newRegionID, key, peerIDs, leaderPeer)
 	t.sim.Count("topo.split")
+	t.changes = append(t.changes, t.sim.Stamp())
 	return true
 }
 
@@ -106,6 +113,7 @@ func (t *rawTopo) MergeAt(key []byte) bool {
 	}
 	t.c.VerifMerge(region.Id, right.Id)
 	t.sim.Count("topo.merge")
+	t.changes = append(t.changes, t.sim.Stamp())
 	return true
 }
 
@@ -123,6 +131,7 @@ func (t *rawTopo) MoveLeaderOf(key []byte) bool {
 	}
 	t.c.ChangeLeader(region.Id, region.Peers[(idx+1)%len(region.Peers)].Id)
 	t.sim.Count("topo.leader-move")
+	t.changes = append(t.changes, t.sim.Stamp())
 	return true
 }
 
@@ -198,8 +207,44 @@ func (f *front) probe(addr string, req *tikvrpc.Request, key []byte) (found bool
 	return !resp.Resp.(*kvrpcpb.RawGetResponse).NotFound, nil, nil
 }
 
+// wireMsg is what every kvproto message implements.
+type wireMsg interface {
+	Marshal() ([]byte, error)
+	Unmarshal([]byte) error
+}
+
+// wireHop encodes and decodes a message the way the gRPC hop between client and server does. It
+// matters: an empty, non-nil byte slice (an empty bound given as []byte{} or []byte("")) arrives as
+// nil, and the mock's storage layer treats a non-nil empty upper bound as "before every key".
+func wireHop(m interface{}) interface{} {
+	wm, ok := m.(wireMsg)
+	if !ok || m == nil {
+		return m
+	}
+	b, err := wm.Marshal()
+	if err != nil {
+		panic(fmt.Sprintf("rawsim: marshal %T: %v", m, err))
+	}
+	fresh := reflect.New(reflect.TypeOf(m).Elem()).Interface().(wireMsg)
+	if err := fresh.Unmarshal(b); err != nil {
+		panic(fmt.Sprintf("rawsim: unmarshal %T: %v", m, err))
+	}
+	return fresh
+}
+
 func (f *front) SendRequest(ctx context.Context, addr string, req *tikvrpc.Request, timeout time.Duration) (*tikvrpc.Response, error) {
 	f.purge()
+	// the server sees a decoded copy of the message, the client a decoded copy of the answer
+	rc := *req
+	rc.Req = wireHop(req.Req)
+	resp, err := f.serve(ctx, addr, &rc, timeout)
+	if resp != nil && resp.Resp != nil {
+		resp = &tikvrpc.Response{Resp: wireHop(resp.Resp)}
+	}
+	return resp, err
+}
+
+func (f *front) serve(ctx context.Context, addr string, req *tikvrpc.Request, timeout time.Duration) (*tikvrpc.Response, error) {
 	switch req.Type {
 	case tikvrpc.CmdGetKeyTTL:
 		r := req.RawGetKeyTTL()
@@ -238,6 +283,19 @@ func (f *front) SendRequest(ctx context.Context, addr string, req *tikvrpc.Reque
 			}
 			return &tikvrpc.Response{Resp: out}, nil
 		}
+	case tikvrpc.CmdRawBatchDelete:
+		// the mock executes a RawBatchDelete even when its region check fails (the error branch in
+		// rpc.go lacks the return) and answers without the region error
+		if r := req.RawBatchDelete(); len(r.Keys) > 0 {
+			_, reResp, err := f.probe(addr, req, r.Keys[0])
+			if err != nil {
+				return nil, err
+			}
+			if reResp != nil {
+				re, _ := reResp.GetRegionError()
+				return &tikvrpc.Response{Resp: &kvrpcpb.RawBatchDeleteResponse{RegionError: re}}, nil
+			}
+		}
 	}
 	resp, err := f.inner.SendRequest(ctx, addr, req, timeout)
 	if err != nil || resp == nil || resp.Resp == nil {
@@ -274,9 +332,26 @@ func (f *front) SendRequest(ctx context.Context, addr string, req *tikvrpc.Reque
 			f.setTTL(r.Key, r.Ttl)
 		}
 	case tikvrpc.CmdRawScan:
-		if req.RawScan().KeyOnly {
-			for _, kv := range resp.Resp.(*kvrpcpb.RawScanResponse).Kvs {
+		r := req.RawScan()
+		kvs := resp.Resp.(*kvrpcpb.RawScanResponse).Kvs
+		if r.KeyOnly {
+			for _, kv := range kvs {
 				kv.Value = nil
+			}
+		}
+		// reach probe: the limit ran out exactly at the last pair of this region although the
+		// requested range goes on in the next region
+		if region, _ := f.cluster.GetRegion(req.Context.GetRegionId()); region != nil && len(kvs) > 0 && uint32(len(kvs)) == r.Limit {
+			last := kvs[len(kvs)-1].Key
+			if !r.Reverse && len(region.EndKey) > 0 && (len(r.EndKey) == 0 || bytes.Compare(region.EndKey, r.EndKey) < 0) {
+				if len(f.mvcc.RawScan(cfName, append(append([]byte{}, last...), 0), region.EndKey, 1)) == 0 {
+					f.sim.Count("probe.scan.limit-exhausted-at-region-border")
+				}
+			}
+			if r.Reverse && len(region.StartKey) > 0 && bytes.Compare(region.StartKey, r.EndKey) > 0 {
+				if len(f.mvcc.RawReverseScan(cfName, last, region.StartKey, 1)) == 0 {
+					f.sim.Count("probe.rscan.limit-exhausted-at-region-border")
+				}
 			}
 		}
 	}
@@ -351,6 +426,22 @@ func (f *front) audit(req *tikvrpc.Request) {
 	}
 }
 
+// pdFront answers store queries in place: the store cache of the code under test holds a
+// sync.Mutex across them (Store.initResolve), and a goroutine waiting for a sync.Mutex whose
+// owner is parked in the simulator would never let the simulated world quiesce. Region queries,
+// the ones that matter here, still cross the simulator (ParkQueries).
+type pdFront struct{ *simkit.PD }
+
+func (p pdFront) WithCallerComponent(caller.Component) pd.Client { return p }
+
+func (p pdFront) GetStore(ctx context.Context, id uint64, opts ...opt.GetStoreOption) (*metapb.Store, error) {
+	return p.PD.Client.GetStore(ctx, id, opts...)
+}
+
+func (p pdFront) GetAllStores(ctx context.Context, opts ...opt.GetStoreOption) ([]*metapb.Store, error) {
+	return p.PD.Client.GetAllStores(ctx, opts...)
+}
+
 // ---------------------------------------------------------------------------------------------
 // world
 
@@ -381,6 +472,10 @@ func newWorld(s *simkit.Sim, sc *Scenario) (*world, error) {
 	for _, k := range sc.Splits {
 		w.topo.splitExact([]byte(k))
 	}
+	// the mock creates the database of a column family on its first write and its batch-get
+	// handler panics when there is none yet
+	mvcc.RawPut(cfName, []byte("a"), []byte("x"))
+	mvcc.RawDelete(cfName, []byte("a"))
 	w.layout0 = w.topo.Describe()
 	w.regions0 = w.topo.regions()
 	w.front = &front{inner: mocktikv.NewRPCClient(w.cluster, mvcc, nil), mvcc: mvcc, cluster: w.cluster, sim: s, expire: map[string]time.Duration{}}
@@ -396,11 +491,16 @@ func newWorld(s *simkit.Sim, sc *Scenario) (*world, error) {
 	w.net.FaultKinds = sc.Net.Kinds
 	tso := &simkit.TSO{}
 	for i := range sc.Actors {
+		if sc.Shared && i > 0 {
+			w.clients = append(w.clients, w.clients[0])
+			w.hist = append(w.hist, nil)
+			continue
+		}
 		pdc := simkit.NewPD(s, w.net, i, tso, mocktikv.NewPDClient(w.cluster))
 		pdc.ParkQueries = sc.Net.ParkPD
 		// the way rawkv.NewClientWithOpts assembles an API v1 client: region cache over a
 		// raw-mode codec PD client, the zero api version (V1), the given transport
-		codecCli := locate.NewCodecPDClient(tikv.ModeRaw, pdc)
+		codecCli := locate.NewCodecPDClient(tikv.ModeRaw, pdFront{pdc})
 		c := &rawkv.Client{}
 		p := rawkv.ClientProbe{Client: c}
 		p.SetRegionCache(locate.NewRegionCache(codecCli))
@@ -434,8 +534,10 @@ func (w *world) scheduleTopo() {
 
 func (w *world) close() {
 	w.net.Shutdown()
-	for _, c := range w.clients {
-		_ = c.Close()
+	for i, c := range w.clients {
+		if i == 0 || c != w.clients[0] {
+			_ = c.Close()
+		}
 	}
 	w.mvcc.VerifCloseAllDBs()
 }
@@ -456,6 +558,7 @@ func (w *world) truth() map[string]string {
 // OpRec is the recorded outcome of one call.
 type OpRec struct {
 	Actor, Idx int
+	Client     int // id of the network endpoint the call went through
 	Op         *Op
 	Inv, Ret   uint64        // global stamps
 	InvAt      time.Duration // simulated instants
@@ -528,7 +631,6 @@ func (w *world) runActor(a int, wg *sync.WaitGroup) {
 	defer wg.Done()
 	act := &w.sc.Actors[a]
 	c := w.clients[a]
-	ctx := context.Background()
 	time.Sleep(time.Duration(act.StartUs) * time.Microsecond)
 	for i := range act.Ops {
 		op := &act.Ops[i]
@@ -540,7 +642,14 @@ func (w *world) runActor(a int, wg *sync.WaitGroup) {
 			continue
 		}
 		time.Sleep(time.Duration(op.GapUs+1) * time.Microsecond)
-		rec := &OpRec{Actor: a, Idx: i, Op: op}
+		rec := &OpRec{Actor: a, Idx: i, Op: op, Client: a}
+		if w.sc.Shared {
+			rec.Client = 0
+		}
+		ctx, cancel := context.Background(), context.CancelFunc(func() {})
+		if op.TimeoutUs > 0 {
+			ctx, cancel = context.WithTimeout(ctx, time.Duration(op.TimeoutUs)*time.Microsecond)
+		}
 		rec.InvAt = w.sim.Now()
 		rec.Inv = w.sim.Stamp()
 		var err error
@@ -609,6 +718,7 @@ func (w *world) runActor(a int, wg *sync.WaitGroup) {
 		}
 		rec.Ret = w.sim.Stamp()
 		rec.RetAt = w.sim.Now()
+		cancel()
 		rec.Err = errStr(err)
 		w.hist[a] = append(w.hist[a], rec)
 		w.sim.Count("op." + op.Kind)
